@@ -45,6 +45,11 @@ def projectionFactor (p0 p1 p : P2 α) : α :=
     let len2 := dx * dx + dy * dy
     ((p.x - p0.x) * dx + (p.y - p0.y) * dy) / len2
 
+/-- `LineSegment::segmentFraction` (used by `LocationIndexOfPoint`): the projection factor clamped to [0, 1] -/
+def segmentFraction (p0 p1 p : P2 α) : α :=
+  let f := projectionFactor p0 p1 p
+  if f < 0 then 0 else if 1 < f then 1 else f
+
 def absv (s : α) : α := if s < 0 then 0 - s else s
 
 /-- `algorithm::Distance::pointToSegment` -/
